@@ -171,10 +171,14 @@ class Graph:
                 out |= self.dependents(n)
         return out
 
-    def touch(self, name, include_self=True):
-        """`name` changed: it and everything downstream may legitimately be re-evaluated (frozen nodes block)"""
-        if name in self.frozen:
+    def touch(self, name, include_self=True, assigned_while_frozen=False):
+        """`name` changed: it and everything downstream may legitimately be re-evaluated (frozen nodes block).
+        assigned_while_frozen: the node itself was assigned (function replaced) while frozen -- it keeps its frozen
+        value and is not re-evaluated, but its parents have had an input assigned and MAY be re-evaluated"""
+        if name in self.frozen and not assigned_while_frozen:
             return
+        if name in self.frozen:
+            include_self = False
         if include_self and self.spec[name][0] != "leaf":
             self.dirty.add(name)
         for n, s in self.spec.items():
@@ -230,7 +234,7 @@ class Graph:
                 new = lambda a, b: k * a + 3 * b + 5  # noqa: E731
             self.nodes[op[1]].func = Counter(new, op[1], self)
             self.spec[op[1]] = ("func", new, self.spec[op[1]][2])
-            self.touch(op[1])
+            self.touch(op[1], assigned_while_frozen=True)
         elif kind == "replace_child":
             node, old = op[1], op[2]
             v = self.fresh("w")
